@@ -1362,7 +1362,7 @@ class SyncObj(object):
                 not self.__forceLogCompaction:
             return
 
-        if self.__conf.logCompactionSplit:
+        if self.__conf.logCompactionSplit and self.__selfNode is not None:
             allNodeIds = sorted([node.id for node in (self.__otherNodes | {self.__selfNode})])
             nodesCount = len(allNodeIds)
             selfIdx = allNodeIds.index(self.__selfNode.id)
